@@ -2,10 +2,10 @@
    `ir` op histories) together with the hierarchical-reference kernels, into one module.
    ExtrOcamlBasic only; nat, N, Z, positive stay extracted inductives. No Extract Constant. *)
 From Coq Require Extraction ExtrOcamlBasic.
-From SV Require Import Base.Base IR.State IR.NS IR.Ops Hier.Paths Hier.Enum Hier.Trace.
+From SV Require Import Base.Base IR.State IR.NS IR.Ops Hier.Paths Hier.Enum Hier.Trace Hier.Conn.
 Extraction Language OCaml.
 Extraction "hier_model.ml" init step
-  inv1a_b inv2a_b wfk_b acyclic_b
+  inv1a_b inv2a_b wfk_b acyclic_b wfc_b top_standalone_b
   is_valid is_unique href_name depth_fuel
   get_hinstances_netlist get_hports_netlist get_hpins_netlist get_hcables_netlist get_hwires_netlist
   hinstances_below hports_below hpins_below hcables_below hwires_below
